@@ -718,7 +718,7 @@ def main(tier, seed, only=None):
         rep.required_witnesses = []
     s = explore_parallel('lifted-blocks', factory, params, signature=signature, seed=seed, chunk=1,
                          query_timeout_ms=120000 if tier == 'quick' else 900000,
-                         deadline_s=600 if tier == 'quick' else 2400, nproc=12, backend='cvc5')
+                         deadline_s=600 if tier == 'quick' else min(2400.0, float(os.environ.get('VERIF_DEADLINE_S') or 2400)), nproc=12, backend='cvc5')
     rep.add(s)
     if not only or 'controller' in only:
         NC = 3 if tier == 'quick' else 4
